@@ -31,7 +31,13 @@ class _Instr:
     sim_kind = "?"
     sim_flavour = None
 
-    def _sim_init(self, name, hb, fail_init, fail_after, fail_kind, park=False):
+    def __len__(self):
+        # container-like services (a pool of pending requests, of child pools ...) may well be empty,
+        # i.e. falsy, right after construction
+        return getattr(self, "sim_len", 1)
+
+    def _sim_init(self, name, hb, fail_init, fail_after, fail_kind, park=False, empty=False):
+        self.sim_len = 0 if empty else 1
         self.sim_park = park
         self.sim_name = name
         self.sim_hb = hb
@@ -134,9 +140,9 @@ class _Instr:
 class _PoolBase(Pool, _Instr):
     sim_kind = "pool"
 
-    def __init__(self, name="pool", hb=0.5, fail_init=False, fail_after=None, fail_kind=None, park=False):
+    def __init__(self, name="pool", hb=0.5, fail_init=False, fail_after=None, fail_kind=None, park=False, empty=False):
         self._demand = 0.0
-        self._sim_init(name, hb, fail_init, fail_after, fail_kind, park)
+        self._sim_init(name, hb, fail_init, fail_after, fail_kind, park, empty)
 
     supply = 4.0
     utilisation = 0.75
@@ -155,17 +161,17 @@ class _PoolBase(Pool, _Instr):
 class _DecoBase(PoolDecorator, _Instr):
     sim_kind = "decorator"
 
-    def __init__(self, target, name="deco", hb=0.5, fail_init=False, fail_after=None, fail_kind=None, park=False):
+    def __init__(self, target, name="deco", hb=0.5, fail_init=False, fail_after=None, fail_kind=None, park=False, empty=False):
         super().__init__(target)
-        self._sim_init(name, hb, fail_init, fail_after, fail_kind, park)
+        self._sim_init(name, hb, fail_init, fail_after, fail_kind, park, empty)
 
 
 class _CtrlBase(Controller, _Instr):
     sim_kind = "controller"
 
-    def __init__(self, target, name="ctrl", hb=0.5, fail_init=False, fail_after=None, fail_kind=None, park=False):
+    def __init__(self, target, name="ctrl", hb=0.5, fail_init=False, fail_after=None, fail_kind=None, park=False, empty=False):
         super().__init__(target)
-        self._sim_init(name, hb, fail_init, fail_after, fail_kind, park)
+        self._sim_init(name, hb, fail_init, fail_after, fail_kind, park, empty)
 
 
 def _variants(base, prefix):
